@@ -250,7 +250,8 @@ def make_file(rng, dg, roots, numbering, opts):
         permid = {v: ordered.index(v) for v in lv}
         nvars = total
     elif not nameless:
-        nvars = n + (rng.randint(1, 4) if opts.get('gaps') else opts.get('extra', 0))
+        nvars = n + ((rng.randint(6, 10) if opts.get('wide_gaps') else rng.randint(1, 4))
+                     if opts.get('gaps') else opts.get('extra', 0))
         slots = sorted(rng.sample(range(nvars), n)) if opts.get('gaps') else list(range(n))
         permid = dict(zip(lv, slots))
     else:
@@ -470,7 +471,9 @@ VARIANTS = [
 def random_opts(rng, k):
     o = dict(VARIANTS[k % len(VARIANTS)])
     o['gaps'] = rng.random() < 0.5
-    o['extra'] = rng.choice([0, 0, 1, 2])
+    # up to 9 more variables in the writer's manager: permids / ids / levels with two digits
+    o['extra'] = rng.choice([0, 0, 1, 2, 7, 9])
+    o['wide_gaps'] = rng.random() < 0.3
     o['aux'] = rng.random() < 0.5
     o['list_unused'] = rng.random() < 0.3
     o['ids_identity'] = rng.random() < 0.3
